@@ -9,7 +9,8 @@ import subprocess
 import sys
 from pathlib import Path
 
-REPO = "/repo"
+import os
+REPO = os.environ.get("SEED_REPO", "/repo")   # a scratch worktree of /repo may be used so that /repo itself stays untouched
 VERIF = Path(__file__).resolve().parent.parent
 
 
@@ -34,7 +35,7 @@ def main():
         res["demo_patched_rc"] = sh(f"cd {REPO} && PYTHONPATH={REPO} /venv/bin/python {d}/demo.py").returncode
         res["checks"] = {}
         for p in props:
-            c = sh(f"cd {VERIF} && ./check {p}")
+            c = sh(f"cd {VERIF} && TUMFL_REPO={REPO} ./check {p}")
             viol = [l for l in c.stdout.split("\n") if l.startswith("VIOLATION")]
             res["checks"][p] = {"rc": c.returncode, "violation": viol[:1], "last": c.stdout.strip().split("\n")[-1][:200]}
             if viol:
